@@ -259,7 +259,7 @@ func GenSrvHistory(r *rand.Rand, cfg *SrvGenCfg) []SEv {
 			default:
 				if max != nil {
 					id := max
-					switch r.IntN(4) {
+					switch r.IntN(6) {
 					case 0:
 						id = inc128(max, 1)
 					case 1:
@@ -267,6 +267,17 @@ func GenSrvHistory(r *rand.Rand, cfg *SrvGenCfg) []SEv {
 							id = &spb.Uint128{High: max.High, Low: max.Low - 1}
 						} else if max.High > 0 {
 							id = &spb.Uint128{High: max.High - 1, Low: ^uint64(0)}
+						}
+					case 2:
+						// lower in the high word, higher in the low word: lower (a comparison that
+						// takes the words in the wrong order says higher)
+						if max.High > 0 && max.Low < ^uint64(0) {
+							id = &spb.Uint128{High: max.High - 1, Low: max.Low + 1 + uint64(r.IntN(5))}
+						}
+					case 3:
+						// higher in the high word, lower in the low word: higher
+						if max.Low > 0 && max.High < ^uint64(0) {
+							id = &spb.Uint128{High: max.High + 1, Low: max.Low - 1}
 						}
 					}
 					f.Election = &spb.FlushRequest_Id{Id: id}
